@@ -24,6 +24,8 @@ def main():
         if a.startswith("--props"):
             props = a.split("=", 1)[1].split(",")
     patch = os.path.join(d, "patch.diff")
+    if os.path.exists(os.path.join(d, "patch.current.diff")):
+        patch = os.path.join(d, "patch.current.diff")
     if "--skip-confirm" not in sys.argv:
         wt = tempfile.mkdtemp(prefix="sv_", dir="/tmp")
         os.rmdir(wt)
@@ -45,7 +47,8 @@ def main():
                                    "tests_with_change": t.stdout.strip()}
                 meta["confirmed"] = r0.returncode == 0 and r1.returncode != 0 and "failed" not in t.stdout and \
                     "passed" in t.stdout
-                sh(f"git -C {wt} diff -- odxtools > {d}/patch.current.diff")
+                if not patch.endswith("patch.current.diff"):
+                    sh(f"git -C {wt} diff -- odxtools > {d}/patch.current.diff")
             print("confirm:", meta.get("confirm"), meta.get("confirmed"))
         finally:
             sh(f"git -C /repo worktree remove --force {wt}")
